@@ -18,7 +18,8 @@
 (***************************************************************************)
 EXTENDS OptTables, Json
 
-CONSTANTS TableIds, ModeIds, MaxLen
+\* Cases: set of integers 8 * (table id) + (mode id)
+CONSTANTS Cases, MaxLen
 
 VARIABLES tab, mid, specs, mode, v
 vars == <<tab, mid, specs, mode, v>>
@@ -41,7 +42,7 @@ Code(r) == IF r.ok THEN <<1, r.p>> \o FlatOpts(r.opts)
 
 Outcome(w) == Code(Parse(specs, mode, ArgvOf(w)))
 
-Init == /\ tab \in TableIds /\ mid \in ModeIds
+Init == /\ \E c \in Cases : tab = c \div 8 /\ mid = c % 8
         /\ specs = TableOf(tab) /\ mode = ModeOfId(mid)
         /\ v = <<>>
 
@@ -54,7 +55,7 @@ Spec == Init /\ [][Next]_vars
 SpecJson(o) == [s |-> o.s, l |-> o.l, a |-> o.a, x |-> o.x]
 
 Emit ==
-  /\ Len(v) = 0 /\ mid = (CHOOSE m \in ModeIds : \A n \in ModeIds : m <= n)
+  /\ Len(v) = 0
        => PrintT(ToJson([hdr |-> tab, specs |-> [i \in DOMAIN specs |-> SpecJson(specs[i])],
                          tokens |-> Tokens, wf |-> WellFormed(specs)]))
   /\ PrintT(ToJson([t |-> tab, m |-> mid, v |-> v, s |-> Outcome(v),
